@@ -25,7 +25,7 @@ func init() {
 			"against constants inside the target type's range (amd64; thorough also 386); (arg-error-blocks-resolver) in every generated field function the resolver/middleware call is edge-dominated by err == nil of the " +
 			"argument coercion, and in every generated args/input/unmarshal function each fallible callee's error is tested and its failure edge only reaches non-nil error returns; (input-table) each generated " +
 			"unmarshalInput's fieldsInOrder table and `switch k` case set equal the SDL's input fields in SDL order, and defaults are injected only under !present; (enum-closed) each generated enum's IsValid case set " +
-			"equals its constants and the SDL values, and UnmarshalGQL returns an error on the !IsValid and non-string edges.",
+			"equals its constants and the SDL values, and UnmarshalGQL returns an error on the !IsValid and non-string edges. (list-null-vs-empty) a generated list unmarshaler returns a nil slice with a nil error only on the edge where its raw input is nil.",
 		NotDecided:  "equality of coerced values with the spec (CoerceList, default values' contents, Omittable set/unset semantics, custom scalars) — value-level",
 		Assumptions: []string{"client integers arrive as json.Number/string/int/int64 as produced by gqlparser and encoding/json"},
 	})
